@@ -25,6 +25,7 @@ THEOREMS = [
     "Mpc.C07_bclr",
     "Mpc.C07_logical",
     "Mpc.C07_bittest",
+    "Mpc.C07_index",
     "Mpc.C07_hamming_partial",
     "Mpc.C07_arrayMult_partial_small",
     "Mpc.C07_arrayMult_wide_wrong",
@@ -142,7 +143,7 @@ def run(ctx):
         "Theorems (Props/C07.lean, all operand/result widths, all values, both prologue variants): ripple adder exact; "
         "ripple subtractor exact for |z| <= max+1 (negation witness above); unsigned comparators; signed comparators "
         "(exact for equal widths, zero-extension semantics otherwise, negation witness); Eq/Neq; MUX; bitwise "
-        "AND/OR/XOR/Clear; logical AND/OR; bit tests; Hamming (Yao, width >= 2); array multiplier: negation witness "
+        "AND/OR/XOR/Clear; logical AND/OR; bit tests; NewIndex; Hamming (Yao, width >= 2); array multiplier: negation witness "
         "for |z| > 2max and kernel-checked enumeration at widths <= 2; bridge lemma to the C01 plain evaluator. "
         "Tie T4: for every modelled builder (adders, subtractors incl. Kogge-Stone, array/Karatsuba/Wallace "
         "multipliers, comparators, MUX, index, bitwise, Hamming) the Lean generator reproduces the real cc.Gates "
